@@ -12,6 +12,37 @@ ID_C08M = ("C08 revision archived although an ObjectSlice referenced by the next
            "(its contents are unknown; the pass has to fail instead)")
 ID_C08S = ("C08 object present in the outgoing and the incoming revision deleted during the handover "
            "(incoming revision keeps it in an ObjectSlice)")
+ID_C08T = ("C08 object present in the outgoing and the incoming revision deleted during the handover "
+           "(status.controllerOf of the outgoing revision stops at its first phase with a failing probe)")
+ID_C08L = ("C08 object present in the outgoing and the incoming revision deleted during the handover "
+           "(a paused pass of the outgoing revision could not see it: cache label removed by the teardown of an older revision)")
+ID_C08A = ("C08 object present in the outgoing and the incoming revision deleted during the handover "
+           "(outgoing revision archived on the Available report of a revision that does not control the object)")
+
+
+def handover_identity(sc, obs):
+    """Which of the known ways led to the first handover violation of a history; None = none of them."""
+    pre_sets, pre_store = sc["sets"], sc["store"]
+    for st, so in zip(sc["steps"], obs["steps"]):
+        if st["op"] == "set":
+            r = next((s for s in pre_sets if s["name"] == st["name"]), None)
+            if r is not None and r["life"] == 2:
+                gone = [o for o in pre_store if not any(p["gk"] == o["gk"] and p["ns"] == o["ns"] and p["name"] == o["name"] for p in so["post"])]
+                newer = sorted([s for s in pre_sets if s["revision"] > r["revision"]], key=lambda s: s["revision"])
+                if gone and newer and newer[0]["life"] != 2:
+                    nx = newer[0]
+                    shared = [o for o in gone if any(q["gk"] == o["gk"] and q["name"] == o["name"] for p in nx["phases"] for q in p["objects"])]
+                    if shared:
+                        o = shared[0]
+                        if any(k["gk"] == o["gk"] and k["name"] == o["name"] for k in r["ctrlof"]):
+                            return ID_C08A
+                        if not o["cache"]:
+                            return ID_C08L
+                        if len(r["phases"]) > 1:
+                            return ID_C08T
+                        return None
+        pre_sets, pre_store = so["sets"], so["post"]
+    return None
 
 
 def note_shapes(run):
